@@ -23,6 +23,7 @@ type Sched struct {
 	rng      *rand.Rand
 	Perturb  float64
 	MaxSleep time.Duration
+	Skipped  []string // script entries abandoned after a timeout (desync), for diagnosis
 	Log      []string // keys in the order they were passed (all arrivals)
 	KeepLog  bool
 }
@@ -76,6 +77,9 @@ func (s *Sched) Arrive(key string) {
 		}
 		if s.pos < idx && time.Now().After(deadline) {
 			s.Desync += idx - s.pos
+			if len(s.Skipped) < 64 {
+				s.Skipped = append(s.Skipped, s.script[s.pos:idx]...)
+			}
 			s.pos = idx
 			break
 		}
